@@ -408,18 +408,28 @@ Definition handle_connect (s : state) (e : event) : state :=
   | [] => s
   end.
 
+Definition str_nonempty (x : str) : bool := match x with [] => false | _ => true end.
+
 Definition handle_join (cfg : config) (s : state) (e : event) : res (state * list out) :=
   match e_src e, e_params e with
   | Some src, chan_name :: rest =>
       let s1 := create_channel s chan_name in
+      (* a user already tracked (e.g. from NAMES) takes ident and host from the JOIN prefix
+         when either is non-empty; a new one is created from the prefix *)
+      let existed := match lookup_user s1 (s_name src) with Some _ => true | None => false end in
       let s2 := create_user s1 src in
       match lookup_channel s2 chan_name, lookup_user s2 (s_name src) with
-      | Some c, Some u =>
+      | Some c, Some u_found =>
+          let u := if existed && (str_nonempty (s_ident src) || str_nonempty (s_host src))
+                   then u_set_ident_host u_found (s_ident src) (s_host src) else u_found in
           let c' := channel_add_user c (u_nick u) in
-          let u1 := user_add_channel u (c_name c) in
+          let u0 := user_add_channel u (c_name c) in
+          (* account-tag: handleTags ran before the user existed *)
+          let u1 := match e_account_tag e with Some a => u_set_account u0 a | None => u0 end in
           let u2 := match rest with
                     | acct :: rest2 =>
-                        let ua := if streqb acct [42] then u1 else u_set_account u1 acct in
+                        (* extended-join: "*" means not logged in *)
+                        let ua := if streqb acct [42] then u_set_account u1 [] else u_set_account u1 acct in
                         match rest2 with name :: _ => u_set_name ua name | [] => ua end
                     | [] => u1
                     end in
@@ -533,7 +543,7 @@ Fixpoint isupport_tokens (opts : amap str) (toks : list str) : amap str :=
   | t :: r =>
       let opts' :=
         match index_byte 61 t with
-        | Some j => if Nat.ltb j 1 || Nat.eqb (j + 1) (length t) then aset t [] opts
+        | Some j => if Nat.ltb j 1 then aset t [] opts
                     else aset (firstn j t) (skipn (j + 1) t) opts
         | None => aset t [] opts
         end in
